@@ -54,6 +54,30 @@ UNIT = Unit(
            ensures=[C("selected", "selected(state.transactions@, res@, |tx: Transaction| is_withdraw_req(*state, tx))", "C15", "C01")],
            rewrites=[("ANF", "collect", 0, 4, {2: sel_proof("is_withdraw_req")})],
            closures=[Closure(0, "tx: Transaction", "(r: Option<Transaction>)", ensures=[C("pred", "r == (if is_withdraw_req(*state, tx) { Some(tx) } else { None::<Transaction> })", "C15")])]),
+        Fn(M, "extract_pool_keys_sorted", home="C15", implicit_props=("C09", "C15", "C16"), **mm_extract_pool_keys(),
+           rewrites=[("PIPE",), ("SUB", "v.sort();", "pk_sort(&mut v);"), ("SUB", "v.dedup();", "pk_dedup(&mut v);"), ("ANF", "collect", 0, 3, {}, "K"), ("ROOT", "iter", 0, "slice_iter", False)],
+           closures=[Closure(0, "tx: &Transaction", "(r: Option<PoolKey>)", ensures=[C("key", "r == spec_req_key(tx.data@)", "C15")])],
+           injects=[Inject(("after_let", "v"), """let ghost v0 = v@; let ghost txs = transactions@;
+                        proof { let opts = choose|opts: Seq<Option<PoolKey>>| #[trigger] filter_map_decided(__clK1, __cK0@, __cK1@, opts);
+                            lemma_opt_flatten(opts);
+                            assert forall|k: PoolKey| #[trigger] v0.contains(k) <==> mentions(txs, k) by {
+                                if v0.contains(k) { let j = choose|j: int| 0 <= j < v0.len() && v0[j] == k; let i = choose|i: int| 0 <= i < opts.len() && opts[i] == Some(v0[j]);
+                                    assert(call_ensures(__clK1, (__cK0@[i],), opts[i])); assert(*__cK0@[i] == txs[i]); }
+                                if mentions(txs, k) { let i = choose|i: int| 0 <= i < txs.len() && spec_req_key((#[trigger] txs[i]).data@) == Some(k);
+                                    assert(call_ensures(__clK1, (__cK0@[i],), opts[i])); assert(*__cK0@[i] == txs[i]); assert(opts[i] is Some);
+                                    let j = choose|j: int| 0 <= j < v0.len() && v0[j] == opts[i]->Some_0; }
+                            } }"""),
+                    Inject(("after_stmt", "pk_sort(&mut v);"), """let ghost sv = v@;
+                        proof { v0.to_multiset_ensures(); sv.to_multiset_ensures();
+                            assert forall|k: PoolKey| #[trigger] sv.contains(k) <==> v0.contains(k) by { assert(sv.to_multiset().count(k) == v0.to_multiset().count(k)); } }"""),
+                    Inject(("after_stmt", "pk_dedup(&mut v);"), "proof { lemma_dedup_sorted(sv); }")]),
+        Fn(M, "transactions_for_pool", home="C15", implicit_props=("C09", "C15"), **mm_transactions_for_pool(),
+           rewrites=[("ANF", "collect", 0, 4, {2: """proof { let b = choose|b: spec_fn(&Transaction) -> bool| #[trigger] filter_decided(__clT1, __cT0@, __cT1@, b);
+                   let p = for_pool(*pool_key);
+                   assert forall|i: int| 0 <= i < __cT0@.len() implies b(#[trigger] __cT0@[i]) == p(transactions@[i]) by { assert(call_ensures(__clT1, (&__cT0@[i],), b(__cT0@[i]))); assert(*__cT0@[i] == transactions@[i]); }
+                   lemma_filter_refs(__cT0@, transactions@, b, p);
+                   assert(__cT2@ =~= transactions@.filter(p)); }"""}, "T"), ("ROOT", "iter", 0, "slice_iter", False)],
+           closures=[Closure(0, "tx: &&Transaction", "(r: bool)", ensures=[C("same", "r == (spec_req_key(tx.data@) == Some(*pool_key))", "C15")])]),
         Fn(C_, "insert_coin", impl="CoinMapping", mode="assume", **cm_insert_coin()),
         Fn(SM, "insert", impl="SmtMapping", mode="assume", wrap=SMT_WRAP, **smt_insert()),
         Fn(S, "tip_906", impl="UnsealedState", mode="assume", **st_tip(830000)),
